@@ -173,9 +173,16 @@ def discharge(obls, timeout_ms=60000, second_solver=False, quick_ms=4000):
         if h and h[0] in solvers and h != ["z3-5.1.0", "recent"]:
             groups.setdefault(tuple(h), []).append(o)
     hinted = set()
+    missed = []
     for (backend, variant), items in groups.items():
         left = run(solvers[backend], backend, items, max(quick_ms * 2, min(timeout_ms, 30000)), variant)   # the rung that worked last time: generous
         hinted |= {id(o) for o in items if o not in left}
+        missed += left
+    if missed:
+        # several paths share an obligation name, so a remembered rung can be the wrong one for some of them: those get the strongest
+        # single rung (z3 5.1 command line, every hypothesis) at once instead of walking the whole ladder first
+        left = run(_solve_z3newcli, "z3-5.1.0-cli", missed, max(quick_ms * 2, min(timeout_ms, 20000)), "all")
+        hinted |= {id(o) for o in missed if o not in left}
     todo = [o for o in todo if id(o) not in hinted]
     rest = run(_solve_z3py, "z3-5.1.0", todo, quick_ms, "recent")
     rest = run(_solve_z3cli, "z3-4.8.12", rest, quick_ms, "all")
